@@ -100,6 +100,26 @@ async fn run_case(case: Vec<String>) -> String {
     if let Err(e) = res {
         return format!("SEND-ERR {:?}", e);
     }
+    // field 10: the request comes again (the answer was lost) from this source, 700 ms later: the stored response goes out again,
+    // where the first one went
+    let mut again = String::new();
+    if let Some(spec) = case.get(10).filter(|s| s.as_str() != "-" && !s.is_empty()) {
+        if wire.lock().len() != 1 {
+            return format!("SENDS={}", wire.lock().len());
+        }
+        advance_to(&clock, 700).await;
+        inject(&endpoint, text.as_bytes(), sockaddr(spec), &tp);
+        for _ in 0..50 {
+            tokio::task::yield_now().await;
+        }
+        let w = wire.lock();
+        again = match w.len() {
+            2 => format!("|R:dest={}:same={}", w[1].1, (w[1].2 == w[0].2) as u8),
+            n => format!("|R:sends={}", n),
+        };
+        drop(w);
+        wire.lock().truncate(1);
+    }
     let w = wire.lock();
     if w.len() != 1 {
         return format!("SENDS={}", w.len());
@@ -111,5 +131,5 @@ async fn run_case(case: Vec<String>) -> String {
         None => return "NO-HEAD-END".into(),
     };
     let lines: Vec<&str> = head.split("\r\n").collect();
-    format!("dest={}|{}|body={}", dest, lines.join("|"), body.len())
+    format!("dest={}|{}|body={}{}", dest, lines.join("|"), body.len(), again)
 }
